@@ -572,7 +572,6 @@ func checkState(r *Report, stratum string, st stateSpec, fallbackSeen *int) {
 	r.Case("state/"+stratum, key, len(a1) > 0 && len(bf) > 0)
 	if ok, why := sameTriangles(a1, a2); !ok {
 		r.Violate(key, "the same renderer value rendering the same shape twice gives different output: "+why, st)
-		return
 	}
 	if ok, why := sameTriangles(bf, b1); !ok {
 		r.Violate(key, "a renderer value that rendered another shape before gives different output than a fresh one (first = fresh, second = used): "+why, st)
@@ -1033,7 +1032,9 @@ func check(c *Ctx, r *Report) error {
 		}
 		var lo, hi [3]int
 		for a := 0; a < 3; a++ {
-			lo[a] = rng.Range(1, n[a]/2)
+			// at least two cells thick: a slab one cell thick with both faces on lattice planes has no
+			// lattice point strictly inside, its sign grid is empty and so (correctly) is the mesh
+			lo[a] = rng.Range(1, n[a]/2-1)
 			hi[a] = rng.Range(n[a]/2+1, n[a]-1)
 		}
 		sp := alignedBox(o, h, n, lo, hi)
@@ -1065,7 +1066,7 @@ func check(c *Ctx, r *Report) error {
 	}
 	r.Coverage["state_cases_with_raycast_fallback"] = fallbackSeen
 
-	r.Rule = "grid cases: sign assignments on small lattices (V2: 1..7 cells per axis, V1: octree depth 1..3, 4 in the long tiers) in strata empty / single solid point / sparse / half / dense / full interior / checkerboard / union of boxes (all with outside boundary) and boundary-solid (outside the class, correspondence only), realised by a trilinear lattice field and rendered by the real code; the triangle list in cell indices is compared, in order, with the Gallina model evaluated on the same grid; non-trivial = at least one triangle, distinct by (lattice size, sign bits). render cases: sphere, box, rotated box, rounded box, box minus sphere, cylinder minus cylinder, union of spheres, each in an asymmetrically enlarged box, 6..27 (40) cells, V1 (lock on, no simplification, three rcond values) and V2 (FarAway in {0.25,0.4,0.499999,0.5}, CenterPush in {0.01,0.1,1}); non-trivial = produced triangles, distinct by full parameter record."
+	r.Rule = "grid cases: sign assignments on small lattices (V2: 1..7 cells per axis, V1: octree depth 1..3, 4 in the long tiers) in strata empty / single solid point / sparse / half / dense / full interior / checkerboard / union of boxes (all with outside boundary) and boundary-solid (outside the class, correspondence only), realised by a trilinear lattice field and rendered by the real code; the triangle list in cell indices is compared, in order, with the Gallina model evaluated on the same grid; non-trivial = at least one triangle, distinct by (lattice size, sign bits). render cases: sphere, box, rotated box, rounded box, box minus sphere, cylinder minus cylinder, union of spheres, each in an asymmetrically enlarged box, 6..27 (40) cells, V1 (lock on, no simplification, three rcond values) and V2 (FarAway in {0.25,0.4,0.499999,0.5}, CenterPush in {0.01,0.1,1}); non-trivial = produced triangles, distinct by full parameter record. aligned strata: boxes and spheres with faces/poles on lattice planes, dyadic and NON-dyadic steps (0.15, 0.05, 0.07, any two-decimal step), centred and translated, 8/16/32 cells, cubic and 2:1:1 volumes; for these and every render case the index-space mesh from the hooks must be closed and all voxels sharing a lattice corner must agree on its sign. state cases: ONE renderer value renders a non-uniformly scaled shape twice (sdf.Scale3d: the field over-estimates distance, the V2 ray cast fails and the warn-once flags get set; counted in state_cases_with_raycast_fallback) and then a plain shape, compared bit for bit with itself and with a fresh renderer; V1 and V2, all settings."
 	r.Trusted = append(r.Trusted,
 		"hand models coq/Algo/DCModel.v of generateTriangles and of contourCellProc/FaceProc/EdgeProc/ProcessEdge over the regenerated tables, tied by differential execution on sign grids (cases_v1_*.v, cases_v2_*.v, exact order)",
 		"float model of dcBoundVertexPosition (coq/Geo/DCVertex.v at Coq primitive floats) compared bit for bit through the hook (cases_bv_*.v); the V2 far-away clamp is inside placeVertex and only observed through the vertex oracle",
